@@ -49,6 +49,10 @@ type vsrvScript struct {
 	// ---- HelloRetryRequest ----
 	HRR       bool
 	HRRGroup  uint16 // 0 = no key_share in the HRR
+	// HRRClean: the HelloRetryRequest itself is compliant (echoes the session id, compression 0, the first TLS 1.3
+	// suite the client offers); Suite / SessionID / Compression then only show in the ServerHello that follows the
+	// second ClientHello, and the key schedule runs with the HelloRetryRequest's suite (cooperative adversary)
+	HRRClean bool
 	HRRCookie []byte // nil = no cookie
 	// ---- EncryptedExtensions ----
 	ALPN          *string // nil = first client protocol the server Config lists (or none); &"" = none
@@ -267,19 +271,22 @@ func vsrvRun13(ctx context.Context, c *Conn, s *vsrvScript) error {
 
 	// ---- suite ----
 	suiteID := s.Suite
-	if suiteID == 0 {
-		for _, id := range []uint16{TLS_AES_128_GCM_SHA256, TLS_AES_256_GCM_SHA384, TLS_CHACHA20_POLY1305_SHA256} {
-			for _, o := range ch.cipherSuites {
-				if o == id && suiteID == 0 {
-					suiteID = id
-				}
+	cleanSuiteID := uint16(0)
+	for _, id := range []uint16{TLS_AES_128_GCM_SHA256, TLS_AES_256_GCM_SHA384, TLS_CHACHA20_POLY1305_SHA256} {
+		for _, o := range ch.cipherSuites {
+			if o == id && cleanSuiteID == 0 {
+				cleanSuiteID = id
 			}
 		}
+	}
+	if suiteID == 0 {
+		suiteID = cleanSuiteID
 		if suiteID == 0 {
 			c.sendAlert(alertHandshakeFailure)
 			return errors.New("vsrv: no TLS 1.3 suite offered")
 		}
 	}
+	hrrClean := s.HRR && s.HRRClean && cleanSuiteID != 0
 	var psk []byte
 	if s.ResumePSK && len(ch.pskIdentities) > 0 {
 		c.ticketKeys = c.config.ticketKeys(nil)
@@ -296,6 +303,9 @@ func vsrvRun13(ctx context.Context, c *Conn, s *vsrvScript) error {
 		}
 	}
 	suite := cipherSuiteTLS13ByID(suiteID)
+	if hrrClean {
+		suite = cipherSuiteTLS13ByID(cleanSuiteID)
+	}
 	if suite == nil {
 		suite = cipherSuiteTLS13ByID(TLS_AES_128_GCM_SHA256) // announced id is not a TLS 1.3 suite: schedule with a fallback
 	}
@@ -335,6 +345,9 @@ func vsrvRun13(ctx context.Context, c *Conn, s *vsrvScript) error {
 			exts = append(exts, vfExt{Type: extensionCookie, Body: b.b})
 		}
 		hrr := vsrvServerHello(legacy, helloRetryRequestRandom, sid, suiteID, s.Compression, exts)
+		if hrrClean {
+			hrr = vsrvServerHello(legacy, helloRetryRequestRandom, ch.sessionId, cleanSuiteID, 0, exts)
+		}
 		if err := s.send(c, hrr, true); err != nil {
 			return err
 		}
